@@ -319,6 +319,64 @@ class C01(Prop):
                     break
         ctx['extra_evals'] += n
         ctx['notes'].append(f'abandoned requests (awaitable cancelled while outstanding) answered late, in several response orders: {n} histories')
+        # the same on a real RPCSession: one request runs into sent_request_timeout while other requests and a batch are
+        # outstanding; each of those still completes with exactly what the peer later sends under its id
+        from harness import sessions
+        from aiorpcx import session as session_mod, curio
+        ns = 0
+        for transport in ('rs', 'us'):
+            loop = sessions.new_loop()
+            try:
+                class S(session_mod.RPCSession):
+                    sent_request_timeout = 1.0
+                proto, ft, s = sessions.attach(S, 'client', transport)
+                res = {}
+
+                async def call(name, coro_fn):
+                    try:
+                        res[name] = ['result', await coro_fn()]
+                    except curio.TaskTimeout:
+                        res[name] = ['TaskTimeout']
+                    except asyncio.CancelledError:
+                        res[name] = ['cancelled']
+                    except Exception as e:
+                        res[name] = ['other', type(e).__name__]
+
+                async def batch():
+                    async with s.send_batch() as b:
+                        b.add_request('m', ['b1'])
+                        b.add_request('m', ['b2'])
+                    return list(b.results)
+
+                async def main():
+                    await sessions.settle(3)
+                    tasks = [loop.create_task(call('A', lambda: s.send_request('m', ['A'])))]      # never answered: times out at 1.0
+                    await asyncio.sleep(0.5)
+                    tasks.append(loop.create_task(call('B', lambda: s.send_request('m', ['B']))))
+                    tasks.append(loop.create_task(call('C', batch)))
+                    await asyncio.sleep(0.7)                                                       # t = 1.2: A has timed out
+                    sent = sessions.sent_messages(ft, 0)
+                    ids = {}
+                    for m_ in sent:
+                        for x in (m_ if isinstance(m_, list) else [m_]):
+                            ids[x['params'][0]] = x['id']
+                    proto.data_received(json.dumps({'jsonrpc': '2.0', 'id': ids['B'], 'result': 'for B'}).encode() + b'\n')
+                    proto.data_received(json.dumps([{'jsonrpc': '2.0', 'id': ids['b2'], 'result': 'for b2'},
+                                                    {'jsonrpc': '2.0', 'id': ids['b1'], 'result': 'for b1'}]).encode() + b'\n')
+                    await asyncio.sleep(0.2)
+                    await asyncio.wait(tasks, timeout=10)
+                    return dict(res)
+                obs = loop.run_until_complete(main())
+            finally:
+                sessions.close_loop(loop)
+            ns += 1
+            want = {'A': ['TaskTimeout'], 'B': ['result', 'for B'], 'C': ['result', ['for b1', 'for b2']]}
+            if obs != want:
+                out.append(Failure({'kind': 'session_timeout', 'transport': transport}, {'outcomes': jv.to_plain(obs), 'expected': jv.to_plain(want)},
+                                   'after one request ran into the response wait limit, the other outstanding requests did not complete with what '
+                                   'the peer sent under their ids'))
+        ctx['extra_evals'] += ns
+        ctx['notes'].append(f'one request timing out on a real RPCSession while others are outstanding: {ns} scenarios')
         return out
 
     def nontrivial(self, case, obs):
